@@ -157,8 +157,11 @@ def caseOfC : List (Nat × Option Codec) → Nat → Option (Option Codec)
 
 /-- `cases`: known discriminants, unit (`none`) or with payload.  `dflt`: codec of the payload of
 every other discriminant (`Proposal::Custom`, `Credential::Custom`); without it unknown
-discriminants are `UnsupportedEnumDiscriminant`.  `reserved`/`err`: discriminants the *encoder*
-refuses for the fall-through case with `Error::Custom(err)` (`proposal.rs:469-477`). -/
+discriminants are `UnsupportedEnumDiscriminant`.  `reserved`/`err`: discriminants that are refused
+for the fall-through case with `Error::Custom(err)`, by the encoder (`proposal.rs:472-481`) and,
+before the payload is read, by the decoder (`proposal.rs:516-519`); a fall-through value with a
+reserved discriminant is not well formed, so the well-formed values are the ones the tagged layer
+itself never refuses to encode (`tagged_enc_wf`). -/
 def tagged (w : Nat) (cases : List (Nat × Option Codec)) (dflt : Option Codec)
     (reserved : Nat → Bool) (err : UInt8) : Codec where
   wf v := match v with
@@ -167,7 +170,7 @@ def tagged (w : Nat) (cases : List (Nat × Option Codec)) (dflt : Option Codec)
       (match caseOfC cases tag, p with
        | some none, none => true
        | some (some c), some x => c.wf x
-       | none, some x => (match dflt with | some d => d.wf x | none => false)
+       | none, some x => (match dflt with | some d => !reserved tag && d.wf x | none => false)
        | _, _ => false)
     | _ => false
   enc v := match v with
@@ -204,9 +207,11 @@ def tagged (w : Nat) (cases : List (Nat × Option Codec)) (dflt : Option Codec)
       | none =>
         match dflt with
         | some d =>
-          (match d.dec r with
-           | .error e => .error e
-           | .ok (x, r') => .ok (.variant tag (some x), r'))
+          if reserved tag then .error (.custom err)
+          else
+            (match d.dec r with
+             | .error e => .error e
+             | .ok (x, r') => .ok (.variant tag (some x), r'))
         | none => .error .unsupportedEnumDiscriminant
   ne := decide (0 < w)
 
@@ -316,7 +321,7 @@ def extensionList : Codec where
     | .ok (es, r) => .ok (.list es, r)
   ne := true
 
-/-- `Proposal` (`proposal.rs:425-520`, features `by_ref_proposal`, `psk`, `custom_proposal`; without
+/-- `Proposal` (`proposal.rs:425-530`, features `by_ref_proposal`, `psk`, `custom_proposal`; without
 `self_remove_proposal` and `gsma_rcs_e2ee_feature`).  Component codecs are parameters. -/
 def proposal (add update remove psk reInit externalInit : Codec) : Codec :=
   tagged 2 [(1, some add), (2, some update), (3, some remove), (4, some psk), (5, some reInit),
